@@ -133,7 +133,7 @@ fn run_set<S: PS>(ctx: &Ctx) -> Acc {
     let rare = rare_keygen_seeds(ctx, p, n_scan);
     let mut tag_names: Vec<&'static str> = Vec::new();
     for r in &rare {
-        let tag: &'static str = if r.tags.iter().any(|t| t == "t-wrap-high") { "rare-t-wrap-high" } else if r.tags.iter().any(|t| t == "t-wrap-low") { "rare-t-wrap-low" } else if r.tags.iter().any(|t| t == "rbp-over-2-blocks") { "rare-rbp-over-2-blocks" } else { "rare-three-byte" };
+        let tag: &'static str = if r.tags.iter().any(|t| t == "t-wrap-high") { "rare-t-wrap-high" } else if r.tags.iter().any(|t| t == "t-wrap-low") { "rare-t-wrap-low" } else if r.tags.iter().any(|t| t == "rbp-over-2-blocks") { "rare-rbp-over-2-blocks" } else if r.tags.iter().any(|t| t.starts_with("rnp-")) { "rare-rnp-reject-run" } else { "rare-three-byte" };
         seeds.push((r.xi, tag));
         tag_names.push(tag);
     }
@@ -146,7 +146,7 @@ fn run_set<S: PS>(ctx: &Ctx) -> Acc {
     let mut acc = Acc::merge_all(accs);
     acc.count("seeds_scanned_for_rare_events", n_scan as u64);
     acc.count("rare_seeds_checked", n_rare as u64);
-    for t in ["rare-t-wrap-high", "rare-t-wrap-low", "rare-rbp-over-2-blocks", "rare-three-byte"] {
+    for t in ["rare-t-wrap-high", "rare-t-wrap-low", "rare-rbp-over-2-blocks", "rare-rnp-reject-run", "rare-three-byte"] {
         acc.count(&format!("seeds_{t}"), tag_names.iter().filter(|x| **x == t).count() as u64);
     }
     if n_rare == 0 {
